@@ -75,7 +75,6 @@ std::unique_ptr<NodeResult> FunctionCallNode::evaluate(PSC::Context &ctx) {
         throw PSC::InvalidArgsError(token, ctx, function->getTypes(), std::move(argTypes));
 
     auto functionCtx = std::make_unique<PSC::Context>(&ctx, functionName, true, function->returnType);
-    ctx.switchToken = &token;
 
     for (size_t i = 0; i < args.size(); i++) {
         auto &argRes = argResults[i];
@@ -138,6 +137,7 @@ std::unique_ptr<NodeResult> FunctionCallNode::evaluate(PSC::Context &ctx) {
         functionCtx->addVariable(var);
     }
 
+    ctx.switchToken = &token;
     try {
         function->run(*functionCtx);
     } catch (ReturnErrSignal&) {}
